@@ -197,6 +197,15 @@ def same_container(a, b):
     return a == b
 
 
+def is_numeric_container(a):
+    """ndarray of numbers, or (nested) list/tuple of plain numbers - no strings."""
+    if isinstance(a, np.ndarray):
+        return a.dtype.kind in 'iuf'
+    if isinstance(a, (list, tuple)):
+        return len(a) > 0 and all(is_numeric_container(x) for x in a)
+    return isinstance(a, (int, float, np.integer, np.floating)) and not isinstance(a, bool)
+
+
 def describe_container(a):
     if isinstance(a, np.ndarray):
         return ['ndarray', str(a.dtype), list(a.shape), a.tolist()]
